@@ -110,7 +110,16 @@ func (interp *Interpreter) gta(root *node, rpath, importPath, pkgName string) ([
 			return false
 
 		case defineXStmt:
-			err = compDefineX(sc, n)
+			if err = compDefineX(sc, n); err != nil {
+				return false
+			}
+			// Package variables keep track of their declaration, for initialization ordering.
+			for _, c := range n.child[:n.nleft] {
+				if sym := sc.sym[c.ident]; sym != nil && sym.kind == varSym {
+					sym.global = true
+					sym.node = n
+				}
+			}
 
 		case valueSpec:
 			l := len(n.child) - 1
